@@ -9,6 +9,7 @@
 use crate::common::*;
 use crate::e1::{key_bytes, show_word, word_json, Cfg, Exec, Op, Thr, MFS_BIG};
 use crate::iohook;
+use bitcask::storage::KeyValueStorage;
 use serde_json::{json, Value};
 use std::path::Path;
 use std::time::Instant;
@@ -113,6 +114,89 @@ pub fn case(dir: &Path, cfg: Cfg, word: &[Op], key: u8, n: usize) -> Result<(usi
     r
 }
 
+/// One case of the "slow read" enumeration: pool depth 1, the get of `key` is stalled at its `n`-th
+/// read-path call (it holds the only pooled reader), another thread gets `other` meanwhile; then
+/// the stalled call completes. Nobody panics or hangs, both read the model's values, the pool is whole.
+pub fn stall_case(dir: &Path, cfg: Cfg, word: &[Op], key: u8, n: usize, other: u8) -> Result<String, (String, String)> {
+    use std::time::Duration;
+    iohook::rec_start(&dir.to_string_lossy());
+    let r = (|| {
+        let e = build(dir, cfg, word).map_err(|m| ("MACHINERY".to_string(), m))?;
+        let pool0 = e.h().verif_pool();
+        let want_h = e.model.get(&key_bytes(key)).cloned();
+        let want_g = e.model.get(&key_bytes(other)).cloned();
+        let root = dir.to_string_lossy().to_string();
+        let (h1, h2) = (e.h().clone(), e.h().clone());
+        let (kb, ob) = (key_bytes(key), key_bytes(other));
+        let root1 = root.clone();
+        iohook::stall_reset();
+        let th = std::thread::spawn(move || {
+            iohook::rec_start(&root1);
+            iohook::arm_read_stall(n);
+            let r = std::panic::catch_unwind(std::panic::AssertUnwindSafe(|| h1.get(bytes::Bytes::from(kb)).map(|o| o.map(|v| v.to_vec())).map_err(|e| e.to_string())));
+            iohook::disarm_read_stall();
+            iohook::rec_stop();
+            r.map_err(|p| panic_text(p))
+        });
+        let t0 = Instant::now();
+        while !iohook::stall_reached() && !th.is_finished() && t0.elapsed() < Duration::from_secs(5) {
+            std::thread::sleep(Duration::from_micros(50));
+        }
+        if !iohook::stall_reached() {
+            iohook::stall_release();
+            let _ = th.join();
+            return Ok("position-absent".to_string());
+        }
+        let tg = std::thread::spawn(move || {
+            let r = std::panic::catch_unwind(std::panic::AssertUnwindSafe(|| h2.get(bytes::Bytes::from(ob)).map(|o| o.map(|v| v.to_vec())).map_err(|e| e.to_string())));
+            r.map_err(|p| panic_text(p))
+        });
+        let t1 = Instant::now();
+        while !tg.is_finished() && t1.elapsed() < Duration::from_millis(20) {
+            std::thread::sleep(Duration::from_micros(200));
+        }
+        let g_waited = !tg.is_finished();
+        iohook::stall_release();
+        let t2 = Instant::now();
+        while !(th.is_finished() && tg.is_finished()) && t2.elapsed() < Duration::from_secs(10) {
+            std::thread::sleep(Duration::from_micros(200));
+        }
+        if !(th.is_finished() && tg.is_finished()) {
+            return Err(("get-hangs-after-the-readers-were-busy".to_string(), format!("10 s after the slow read completed: the slow get has {}returned, the other get has {}returned", if th.is_finished() { "" } else { "not " }, if tg.is_finished() { "" } else { "not " })));
+        }
+        for (who, res, want) in [("the slow get", th.join().unwrap(), &want_h), ("the get that found every reader busy", tg.join().unwrap(), &want_g)] {
+            match res {
+                Err(p) => return Err(("get-panics-when-the-readers-are-busy".to_string(), format!("{} panicked: {}", who, p))),
+                Ok(Err(m)) => return Err(("get-error".to_string(), format!("{} failed although nothing was injected: {}", who, m))),
+                Ok(Ok(v)) => {
+                    if &v != want {
+                        return Err(("wrong-value-when-the-readers-are-busy".to_string(), format!("{} returned {:?}, model {:?}", who, v.as_ref().map(|x| hex(x)), want.as_ref().map(|x| hex(x)))));
+                    }
+                }
+            }
+        }
+        let pool1 = e.h().verif_pool();
+        if pool1 != pool0 {
+            return Err(("reader-pool-changed-by-busy-readers".to_string(), format!("reader pool (available, capacity) was {:?} before and is {:?} after", pool0, pool1)));
+        }
+        for round in 0..=cfg.conc {
+            for k in KEYS {
+                let want = e.model.get(&key_bytes(k)).cloned();
+                match e.get(k) {
+                    Ok(v) if v == want => {}
+                    other => return Err(("reads-wrong-after-the-readers-were-busy".to_string(), format!("round {}: get({}) = {:?}, model {:?}", round, hex(&key_bytes(k)), other.map(|o| o.map(|x| hex(&x))), want.as_ref().map(|x| hex(x))))),
+                }
+            }
+        }
+        Ok(format!("slow-read:{}", if g_waited { "other-get-waited" } else { "other-get-served" }))
+    })();
+    iohook::rec_stop();
+    r
+}
+fn panic_text(p: Box<dyn std::any::Any + Send>) -> String {
+    p.downcast_ref::<String>().cloned().or_else(|| p.downcast_ref::<&str>().map(|s| s.to_string())).unwrap_or_else(|| "panic".into())
+}
+
 pub fn worker(job: &Job) -> Shard {
     let mut sh = Shard::default();
     let t0 = Instant::now();
@@ -152,6 +236,22 @@ pub fn worker(job: &Job) -> Shard {
                     }
                 };
                 sh.evaluations += 1;
+                // a SLOW read instead of a failing one: with a pool of one reader, the get is stalled
+                // at each of its read-path calls while another thread gets either key
+                if cfg.conc == 1 && w.len() <= 2 {
+                    for n in 1..=total {
+                        for other in KEYS {
+                            sh.evaluations += 1;
+                            sh.transitions += 2;
+                            let mk2 = json!({"engine": "sched", "kind": "readfault", "mode": "stall", "cfg": cfg.to_json(), "word": word_json(w), "key": key, "fault_at_read_path_call": n, "other": other});
+                            match stall_case(&dir, *cfg, w, key, n, other) {
+                                Ok(o) => sh.outcome(o),
+                                Err((c, m)) if c == "MACHINERY" => sh.machinery_errors.push(format!("slow read {} | {} under {:?}", m, show_word(w), cfg)),
+                                Err((c, m)) => sh.violate(Violation { class: format!("C04:{}", c), msg: format!("{} | read-path call {} of {} of get({}) takes long (pool of one reader), get({}) on another thread meanwhile | state after {} under {:?}", m, n, total, hex(&key_bytes(key)), hex(&key_bytes(other)), show_word(w), cfg), case: mk2 }),
+                            }
+                        }
+                    }
+                }
                 for n in 1..=total {
                     sh.evaluations += 1;
                     sh.transitions += 1;
@@ -177,6 +277,15 @@ pub fn replay(case_json: &Value) -> Vec<Violation> {
     let (Some(cfg), Some(word)) = (Cfg::from_json(&case_json["cfg"]), crate::e1::word_from_json(&case_json["word"])) else { return vec![] };
     let key = case_json["key"].as_u64().unwrap_or(0) as u8;
     let n = case_json["fault_at_read_path_call"].as_u64().unwrap_or(0) as usize;
+    if case_json["mode"] == "stall" {
+        let r = stall_case(&dir, cfg, &word, key, n, case_json["other"].as_u64().unwrap_or(0) as u8);
+        rmrf(&dir);
+        println!("replayed slow-read case: {:?}", r);
+        return match r {
+            Err((c, m)) if c != "MACHINERY" => vec![Violation { class: format!("C04:{}", c), msg: m, case: case_json.clone() }],
+            _ => vec![],
+        };
+    }
     let r = case(&dir, cfg, &word, key, n);
     rmrf(&dir);
     println!("replayed read-fault case: {:?}", r);
@@ -187,5 +296,5 @@ pub fn replay(case_json: &Value) -> Vec<Violation> {
 }
 
 pub fn describe(tier: Tier) -> String {
-    format!("Second pass (sequential, for the last sentence of the property): in every state reached by every word of length <= {} over {{set a, set b 9000 B, overwrite a, del a, merge, reopen}} x max_file_size {{0, 60, 2^31}} x reader cache {{0, 1, 256}} x pool depth {{1, 2}}, a get of each key is repeated once per read-path call it makes (open of a data file for reading -> EMFILE, mmap -> ENOMEM) with exactly that call failing; the get may fail but not panic or return a wrong value, afterwards the pool holds every reader again and every key reads as the model says pool-depth + 1 times.", tier.pick(3, 4))
+    format!("Second pass (sequential, for the last sentence of the property): in every state reached by every word of length <= {} over {{set a, set b 9000 B, overwrite a, del a, merge, reopen}} x max_file_size {{0, 60, 2^31}} x reader cache {{0, 1, 256}} x pool depth {{1, 2}}, a get of each key is repeated once per read-path call it makes (open of a data file for reading -> EMFILE, mmap -> ENOMEM) with exactly that call failing; the get may fail but not panic or return a wrong value, afterwards the pool holds every reader again and every key reads as the model says pool-depth + 1 times. With a pool of one reader and words of length <= 2, each of those calls is also made SLOW instead of failing (it completes when the harness says so) while another thread gets either key: nobody panics or hangs, both reads are right, the pool is whole afterwards.", tier.pick(3, 4))
 }
